@@ -109,10 +109,15 @@ structure TreeOk (t : List Entry) : Prop where
   sorted : Sorted t
   names : ∀ e ∈ t, ValidName e.name
   uniq : (t.map (·.name)).Nodup
+  /-- directory entries have mode 040000 and never point at the empty tree (git writes no others) -/
+  good : ∀ e ∈ t, e.isTree = true → e.oid ≠ emptyTreeId ∧ e.mode = 0o040000
+
+/-- what a new entry has to satisfy for that -/
+def GoodEntry (e : Entry) : Prop := e.isTree = true → e.oid ≠ emptyTreeId ∧ e.mode = 0o040000
 
 theorem TreeOk.namesOk {t : List Entry} (h : TreeOk t) : NamesOk t := fun e he => (h.names e he).2
 
-theorem treeOk_nil : TreeOk [] := ⟨by simp [Sorted], by simp, by simp⟩
+theorem treeOk_nil : TreeOk [] := ⟨by simp [Sorted], by simp, by simp, by simp⟩
 
 theorem uniq_name_eq {t : List Entry} (hu : (t.map (·.name)).Nodup) {x y : Entry}
     (hx : x ∈ t) (hy : y ∈ t) (h : x.name = y.name) : x = y := by
@@ -168,11 +173,11 @@ theorem entryCmp_congr {a a' b b' : Entry} (h1 : a.name = a'.name) (h2 : a.isTre
 /-! ### the splice lemma: `L ++ y :: R` is canonical -/
 
 theorem treeOk_splice {L R : List Entry} {y : Entry} (hLR : TreeOk (L ++ R))
-    (hy : ValidName y.name) (hfresh : ∀ x ∈ L ++ R, x.name ≠ y.name)
+    (hy : ValidName y.name) (hyg : GoodEntry y) (hfresh : ∀ x ∈ L ++ R, x.name ≠ y.name)
     (hL : ∀ a ∈ L, entryCmp a y = .lt) (hR : ∀ b ∈ R, entryCmp y b = .lt) :
     TreeOk (L ++ y :: R) := by
   have hs := List.pairwise_append.1 hLR.sorted
-  refine ⟨?_, ?_, ?_⟩
+  refine ⟨?_, ?_, ?_, ?_⟩
   · refine List.pairwise_append.2 ⟨hs.1, List.pairwise_cons.2 ⟨hR, hs.2.1⟩, ?_⟩
     intro a ha b hb
     rcases List.mem_cons.1 hb with rfl | hb'
@@ -197,6 +202,12 @@ theorem treeOk_splice {L R : List Entry} {y : Entry} (hLR : TreeOk (L ++ R))
         intro heq
         exact hfresh x (List.mem_append_left _ hx) (hxn.trans heq)
       · exact hu'.2.2 a ha b hb'
+  · intro e he hd
+    rcases List.mem_append.1 he with h | h
+    · exact hLR.good e (List.mem_append_left _ h) hd
+    · rcases List.mem_cons.1 h with rfl | h'
+      · exact hyg hd
+      · exact hLR.good e (List.mem_append_right _ h') hd
 
 theorem treeOk_unsplice {L R : List Entry} {x : Entry} (h : TreeOk (L ++ x :: R)) :
     TreeOk (L ++ R) ∧ (∀ a ∈ L, entryCmp a x = .lt) ∧ (∀ b ∈ R, entryCmp x b = .lt) ∧
@@ -207,7 +218,7 @@ theorem treeOk_unsplice {L R : List Entry} {x : Entry} (h : TreeOk (L ++ x :: R)
   simp only [List.map_append, List.map_cons] at hu
   have hu' := List.nodup_append.1 hu
   have hux := List.nodup_cons.1 hu'.2.1
-  refine ⟨⟨?_, ?_, ?_⟩, ?_, hsx.1, ?_⟩
+  refine ⟨⟨?_, ?_, ?_, ?_⟩, ?_, hsx.1, ?_⟩
   · refine List.pairwise_append.2 ⟨hs.1, hsx.2, ?_⟩
     intro a ha b hb
     exact hs.2.2 a ha b (List.mem_cons_of_mem _ hb)
@@ -219,6 +230,10 @@ theorem treeOk_unsplice {L R : List Entry} {x : Entry} (h : TreeOk (L ++ x :: R)
     refine List.nodup_append.2 ⟨hu'.1, hux.2, ?_⟩
     intro a ha b hb
     exact hu'.2.2 a ha b (List.mem_cons_of_mem _ hb)
+  · intro e he hd
+    rcases List.mem_append.1 he with h' | h'
+    · exact h.good e (List.mem_append_left _ h') hd
+    · exact h.good e (List.mem_append_right _ (List.mem_cons_of_mem _ h')) hd
   · intro a ha
     exact hs.2.2 a ha x (List.mem_cons_self)
   · intro z hz
@@ -352,10 +367,10 @@ theorem searchName_absent {t : List Entry} (ht : TreeOk t) {n : Bytes} (hn : Val
 /-- inserting a fresh entry at the index the search returned keeps the tree canonical -/
 theorem treeOk_insertAt {t : List Entry} (ht : TreeOk t) {n : Bytes} (hn : ValidName n)
     (hno : findName t n = none) {mb : Bool} {i : Nat} (hp : PartAt t n mb i) (e : Entry)
-    (hen : e.name = n) (het : e.isTree = mb) : TreeOk (insertAt t i e) := by
+    (hen : e.name = n) (het : e.isTree = mb) (heg : GoodEntry e) : TreeOk (insertAt t i e) := by
   unfold insertAt
   have hno' := findName_eq_none_iff.1 hno
-  refine treeOk_splice (by rw [List.take_append_drop]; exact ht) (hen ▸ hn) ?_ ?_ ?_
+  refine treeOk_splice (by rw [List.take_append_drop]; exact ht) (hen ▸ hn) heg ?_ ?_ ?_
   · intro x hx
     rw [List.take_append_drop] at hx
     rw [hen]; exact hno' x hx
@@ -370,9 +385,9 @@ theorem treeOk_insertAt {t : List Entry} (ht : TreeOk t) {n : Bytes} (hn : Valid
 
 theorem findName_insertAt {t : List Entry} (ht : TreeOk t) {n : Bytes} (hn : ValidName n)
     (hno : findName t n = none) {mb : Bool} {i : Nat} (hp : PartAt t n mb i) (e : Entry)
-    (hen : e.name = n) (het : e.isTree = mb) (m : Bytes) :
+    (hen : e.name = n) (het : e.isTree = mb) (heg : GoodEntry e) (m : Bytes) :
     findName (insertAt t i e) m = if m = n then some e else findName t m := by
-  have hok := treeOk_insertAt ht hn hno hp e hen het
+  have hok := treeOk_insertAt ht hn hno hp e hen het heg
   unfold insertAt at hok ⊢
   rw [findName_splice hok m, List.take_append_drop, hen]
 
@@ -398,20 +413,21 @@ theorem findName_eraseIdx {t : List Entry} (ht : TreeOk t) {i : Nat} (hi : i < t
 
 /-- overwrite the entry at `i` keeping its name and kind: no re-sort needed -/
 theorem treeOk_set_same {t : List Entry} (ht : TreeOk t) {i : Nat} (hi : i < t.length) (e : Entry)
-    (hen : e.name = t[i].name) (het : e.isTree = t[i].isTree) : TreeOk (t.set i e) := by
+    (hen : e.name = t[i].name) (het : e.isTree = t[i].isTree) (heg : GoodEntry e) :
+    TreeOk (t.set i e) := by
   rw [List.set_eq_take_append_cons_drop, if_pos hi]
   have hsplit := split_at hi
   have ht' := ht
   rw [hsplit] at ht'
   obtain ⟨hLR, hL, hR, hfresh⟩ := treeOk_unsplice ht'
-  refine treeOk_splice hLR (hen ▸ ht.names _ (List.getElem_mem hi)) ?_ ?_ ?_
+  refine treeOk_splice hLR (hen ▸ ht.names _ (List.getElem_mem hi)) heg ?_ ?_ ?_
   · intro x hx; rw [hen]; exact hfresh x hx
   · intro a ha; rw [entryCmp_congr rfl rfl hen het]; exact hL a ha
   · intro b hb; rw [entryCmp_congr hen het rfl rfl]; exact hR b hb
 
 /-- overwrite the entry at `i` keeping its name, then `sort()`: canonical whatever the kinds -/
 theorem treeOk_set_sort {t : List Entry} (ht : TreeOk t) {i : Nat} (hi : i < t.length) (e : Entry)
-    (hen : e.name = t[i].name) : TreeOk (sortEntries (t.set i e)) := by
+    (hen : e.name = t[i].name) (heg : GoodEntry e) : TreeOk (sortEntries (t.set i e)) := by
   have hsplit := split_at hi
   have ht' := ht
   rw [hsplit] at ht'
@@ -448,9 +464,15 @@ theorem treeOk_set_sort {t : List Entry} (ht : TreeOk t) {i : Nat} (hi : i < t.l
     refine (List.Pairwise.and_mem.1 hp).imp ?_
     rintro a b ⟨ha, hb, hne⟩ hk
     exact hne (key_inj (hnames a ha).2 (hnames b hb).2 hk).1
-  refine ⟨sortEntries_sorted _ (fun x hx => (hnames x hx).2) hkeys, ?_, ?_⟩
+  refine ⟨sortEntries_sorted _ (fun x hx => (hnames x hx).2) hkeys, ?_, ?_, ?_⟩
   · intro x hx; exact hnames x (hperm.subset hx)
   · exact (hperm.map (·.name)).nodup_iff.2 huniq
+  · intro x hx hd
+    have hx' := hperm.subset hx
+    rw [hset] at hx'
+    rcases mem_splice.1 hx' with rfl | h
+    · exact heg hd
+    · exact hLR.good x h hd
 
 theorem mem_set_iff {t : List Entry} (ht : TreeOk t) {i : Nat} (hi : i < t.length) (e x : Entry) :
     x ∈ t.set i e ↔ x = e ∨ (x ∈ t ∧ x.name ≠ t[i].name) := by
